@@ -3,6 +3,16 @@
 Per attrs class: the field list (name, converter, default, validator) and the __eq__ body (isinstance guard + the compared
 attributes); the converter factories (partial_apply, list_converter), the kind -> class dispatch functions with the kinds
 they know, the validator functions, and create_lsp_model (root class + which list fields are extended, in order).
+Grammar of the helpers (recognised by their bodies, names are free):
+  partial application   def P(f): def apply(x): <if isinstance(x, dict): return f(**x)> <else:> return x ; return apply
+                        def P(f): return lambda x: f(**x) if isinstance(x, dict) else x
+  list converter        def L(f): [def apply ... | apply = P(f)] ; def conv(x): return list(map(apply, x)) | [apply(e) for e in x]
+                                  | [P(f)(e) for e in x] | [f(**e) if isinstance(e, dict) else e for e in x] ; return conv   (or return lambda x: ...)
+  keyword dispatch      def D(**info): [if info is None: return None]  T = {"k": Class, ...}  [key = info["kind"]]  c = T.get(info["kind"] | key)
+                                  if c / c is not None: return c(**info) [else:] raise ..   |   if not c / c is None: raise .. ; return c(**info)
+  positional dispatch   def D(info): if info["kind"] == "k": return C(**info) ... ; return Default(**info)
+A `converter=` that is none of: P(target), L(target), lambda x: C(**x), the uuid lambda, a positional dispatch function - is rejected
+(a new converter function would change what loading does; the search streams of the check then look for the input).
 Fail-closed: anything outside the grammar aborts (exit 3, "REJECT: why").  The AST is cross-checked against the imported
 module (attrs.fields per class, origin of each __eq__).
 usage: x_modelpy.py <out.v> [<info.json>]
